@@ -300,10 +300,12 @@ func (b *Batcher) trySendBatchAndUnlock(batch *Batch) {
 	batch.seq = b.outSeq
 	b.outSeq++
 	b.batch = nil
-	b.mu.Unlock()
 
 	verifGate("batcher.beforeSend")
+	// send under the lock: Stop closes the channel under the same lock,
+	// the channel has room for every batch, so it never blocks here.
 	b.fullBatches <- batch
+	b.mu.Unlock()
 }
 
 func (b *Batcher) getBatch() *Batch {
